@@ -165,8 +165,8 @@ Definition cread (r : creader) (k : Z) : list Z * option perr * creader :=
 
 Definition rd_bytes (r : creader) : list Z := concat (fst r).
 (** enough fuel for every loop over this reader: each iteration consumes at
-    least one byte or ends the loop *)
-Definition rd_fuel (r : creader) : nat := S (S (length (rd_bytes r))).
+    least one byte, or a whole (possibly empty) chunk, or ends the loop *)
+Definition rd_fuel (r : creader) : nat := S (S (length (rd_bytes r) + length (fst r))).
 
 (** ** the harness's writer: a script of responses, one per Write call:
     (bytes accepted at most, fail?).  An exhausted script accepts everything.
